@@ -66,6 +66,22 @@ def map_trace(ref_trace, qid):
     return out
 
 
+class _HostValue(int):
+    """An int subclass in the way of the SDK's BaseFuture: raw value 0, the value it stands for in __int__ and the comparisons."""
+    def __new__(cls, v):
+        o = int.__new__(cls, 0)
+        o.v = int(v)
+        return o
+    __int__ = lambda self: self.v
+    __lt__ = lambda self, o: self.v < int(o)
+    __le__ = lambda self, o: self.v <= int(o)
+    __gt__ = lambda self, o: self.v > int(o)
+    __ge__ = lambda self, o: self.v >= int(o)
+    __eq__ = lambda self, o: self.v == o
+    __hash__ = lambda self: hash(self.v)
+    __str__ = __repr__ = lambda self: str(self.v)
+
+
 def run_differential(prog, script, fail: Callable[[str, Optional[str]], None], count: Callable[[str, int], None],
                      pipe_kw=None, compare_trace=True, on_segment=None, on_top=None, step_bound=4000,
                      check_host_handles=True, templates=None, segment_modes=None, after_close=None, on_nested=None):
@@ -170,7 +186,10 @@ def run_differential(prog, script, fail: Callable[[str, Optional[str]], None], c
                         if sub is not None:
                             ahead["pre"] = ahead.get("pre", 0) + 1
                             if sub.arguments or ahead["pre"] % 2:
-                                sub.instantiate(conn.app_id, tv)
+                                # (every third time the values are handed over the way a host has them after reading a measurement
+                                # outcome: an int subclass whose value lives in __int__, like the SDK's resolved Future)
+                                vals = {k_: _HostValue(v_) for k_, v_ in tv.items()} if ahead["pre"] % 3 == 0 else tv
+                                sub.instantiate(conn.app_id, vals)
                             else:
                                 count("precompiled_committed_without_instantiate", 1)     # nothing to fill in: committed as compiled
                             conn.commit_subroutine(sub, block=callback is None, callback=callback)
